@@ -189,6 +189,11 @@ func report(eng *Engine, prop, tier string, seed int, start time.Time, runs []*R
 			}
 		}
 	}
+	for _, r := range runs {
+		for k, v := range r.foreign {
+			tb["callee clause discharged under another property's check ("+v+"): "+k] = true
+		}
+	}
 	axUsed := map[string]bool{}
 	for _, q := range queries {
 		_, used := eng.C.prelude(q.Uses, "")
